@@ -18,10 +18,11 @@ class Unsupported(Exception):
 
 class SV:
     """symbolic value: k in int|bool|str|ref|val|seq ; t the z3 term ; h a Ty hint (or None)"""
-    __slots__ = ("k", "t", "h", "fresh")
+    __slots__ = ("k", "t", "h", "fresh", "exactcls")
 
     def __init__(self, k, t, h=None, fresh=False):
         self.k, self.t, self.h, self.fresh = k, t, h, fresh
+        self.exactcls = None
 
     def __repr__(self):
         return f"SV({self.k},{self.t},{self.h})"
@@ -102,6 +103,7 @@ class Spec:
         self.externals = {}     # name -> python callable model
         self.lazy_ok = set()    # (cls, name) fields whose presence is guaranteed by an invariant we assume (listed)
         self.fn_ids = {}        # known function name -> id
+        self.macros = {}        # spec macro name -> lambda source text
 
     def atom(self, s):
         if s not in self.strings:
@@ -117,7 +119,7 @@ class Spec:
 class Contract:
     def __init__(self, target, requires=(), ensures=(), modifies=(), types=None, returns=None, inline=False,
                  loop_invariants=None, raises=(), allocates=False, assumed=False, hints=(), ghost_updates=(),
-                 props=(), decreases=None, pure=False, note=""):
+                 props=(), decreases=None, pure=False, note="", cases=None):
         self.target = target
         self.requires = [self._lab(x, "pre", k) for k, x in enumerate(requires)]
         self.ensures = [self._lab(x, "post", k) for k, x in enumerate(ensures)]
@@ -133,6 +135,24 @@ class Contract:
         self.props = list(props)
         self.pure = pure
         self.note = note
+        self.when = None
+        self.case_name = None
+        self.cases = []
+        for cs in (cases or []):
+            self.cases.append(self.make_case(cs))
+
+    def make_case(self, cs):
+        """a behaviour of the function: guard `when` plus its own requires / ensures / modifies, on top
+        of the shared ones"""
+        c = Contract(self.target, requires=[], ensures=[], modifies=list(self.modifies) + list(cs.get("modifies", [])),
+                     types=self.types, returns=self.returns, loop_invariants=self.loop_invariants,
+                     raises=self.raises + list(cs.get("raises", [])), allocates=self.allocates or cs.get("allocates", False),
+                     assumed=self.assumed, props=self.props)
+        c.requires = list(self.requires) + [self._lab(x, "pre-" + cs["name"], k) for k, x in enumerate(cs.get("requires", []))]
+        c.ensures = list(self.ensures) + [self._lab(x, "post-" + cs["name"], k) for k, x in enumerate(cs.get("ensures", []))]
+        c.when = cs["when"]
+        c.case_name = cs["name"]
+        return c
 
     @staticmethod
     def _lab(x, pfx, k):
@@ -250,6 +270,20 @@ class Executor:
                 at = arr.arg(1)
             self.write_log.append((name, at, hint, fresh_obj, preds))
 
+    def named_heap(self, st, name):
+        """the current array of heap `name` as a constant (for use in quantifier patterns: z3 rewrites
+        select-over-store terms, so a pattern containing a Store never matches)"""
+        arr = self.heap_get(st, name)
+        if z3.is_const(arr):
+            return arr
+        names = st.known.setdefault("$names", {})
+        key = ("heap", arr.get_id())
+        if key not in names:
+            c = fresh("Hn_" + name.replace("$", "S"), arr.sort())
+            st.pc.append(c == arr)
+            names[key] = c
+        return names[key]
+
     def fresh_heap(self, st, name, preds=None):
         old = self.heap_get(st, name)
         new = fresh("H_" + name.replace("$", "S"), old.sort())
@@ -325,6 +359,8 @@ class Executor:
             return z3.Or(Val.is_intv(term), Val.is_pinf(term))
         if k == "fn":
             return Val.is_fnv(term)
+        if k == "fnconst":
+            return term == Val.fnv(self.S.fn_id(ty.name))
         if k == "none":
             return Val.is_none(term)
         if k == "rec":
@@ -409,6 +445,9 @@ class Executor:
 
     def assume(self, st, f):
         if self.quant_facts is not None:
+            # inside a quantifier body: the fact holds under the guards active where it arose
+            if st.guards:
+                f = z3.Implies(z3.And(list(st.guards)), f)
             self.quant_facts.append(f)
         else:
             st.assume(f)
@@ -813,13 +852,27 @@ class Executor:
         o = self.as_ref(base, st, node, f"receiver-of-{name}")
         # property?
         classes = self.static_classes(o)
-        prop = None
-        for c in classes:
-            fi = self.P.lookup(c, name) if c in self.P.classes else None
-            if fi is not None and fi.is_property:
-                prop = name
-        if prop:
+        exact = getattr(o, "exactcls", None)
+        concs = [exact] if exact else self.concrete_subclasses(classes)
+        withprop = [c for c in concs if c in self.P.classes and self.P.lookup(c, name) is not None
+                    and self.P.lookup(c, name).is_property]
+        if withprop and len(withprop) == len(concs):
             return self.call_method(st, o, name, [], {}, node)
+        if withprop:
+            out = []
+            rest = [c for c in concs if c not in withprop]
+            for group, isprop in ((withprop, True), (rest, False)):
+                cond = z3.Or([cls_of(o.t) == self.cid(c) for c in group])
+                s2 = st.copy()
+                if not self.noprune and not self.feasible(s2, cond):
+                    continue
+                s2.assume(cond)
+                o2 = SV("ref", o.t, Ty("obj", classes=group))
+                if isprop:
+                    out.extend(self.call_method(s2, o2, name, [], {}, node))
+                else:
+                    out.append((s2, self.read_field(s2, o2, name, node)))
+            return out
         return [(st, self.read_field(st, o, name, node))]
 
     _rec_fields = {}
@@ -1166,9 +1219,15 @@ class Executor:
             named = fresh("el", Val)
             st.assume(named == elem)
             elem = named
-        sv = self.wrap_elem(elem, ety, st)
-        if sv.k == "ref" and ety is not None and ety.kind in ("list", "dict") and base.k == "ref":
-            self.assume(st, z3.And(owner_of(sv.t) == owner_of(base.t), slot_of(sv.t) == pos))
+        if self.quant_facts is not None:
+            st.guards.append(z3.And(0 <= pos, pos < Len(s)))     # element facts hold for positions in range
+        try:
+            sv = self.wrap_elem(elem, ety, st)
+            if sv.k == "ref" and ety is not None and ety.kind in ("list", "dict") and base.k == "ref":
+                self.assume(st, z3.And(owner_of(sv.t) == owner_of(base.t), slot_of(sv.t) == pos))
+        finally:
+            if self.quant_facts is not None:
+                st.guards.pop()
         return sv
 
     def slice_of(self, st, base, sl, node):
@@ -1311,8 +1370,7 @@ class Executor:
             ax.append(smt.forall([j, j2], z3.Implies(z3.And(0 <= j, j < j2, j2 < Len(R_)), idx(j) < idx(j2)),
                                 patterns=[z3.MultiPattern(idx(j), idx(j2))]))
             ax.append(smt.forall([j], z3.Implies(z3.And(0 <= j, j < Len(S0), Fk(j), Pk(j)),
-                                                z3.And(0 <= inv(j), inv(j) < Len(R_), idx(inv(j)) == j,
-                                                       At(R_, inv(j)) == Ek(j))),
+                                                z3.And(0 <= inv(j), inv(j) < Len(R_), idx(inv(j)) == j)),
                                 patterns=[At(S0, j)]))
             # nothing passes the filter  <=>  empty result (helps `len(waiting) > 0` tests)
             ax.append(smt.forall([j], z3.Implies(z3.And(0 <= j, j < Len(S0), Fk(j), Pk(j)), Len(R_) > 0),
